@@ -85,3 +85,28 @@ Proof.
   all: intros t0 o0 p0 Ho Hv Hn; autorewrite with sys in *.
   all: rewrite ?count_tag_snoc, ?tag_is_E, ?Nat.add_0_r; eapply HK; eauto.
 Qed.
+
+(** Every operation other than a walk commits exactly once, with its own operation and the result it
+    returns — for every cap, every size limit, every schedule. *)
+Lemma reach_RK cap max ops s : reach (init_sys cap max [] enf0 ops) s -> invR ops s /\ invK ops s.
+Proof.
+  revert s. apply reach_ind_inv.
+  - split.
+    + intros t p H. destruct (init_thr_nth _ _ _ _ _ H) as (o & -> & Ho). unfold rfact; cbn [committed pending_op]. eauto.
+    + intros t o p Ho Hv Hp. destruct (init_thr_nth _ _ _ _ _ Hp) as (o' & -> & _). reflexivity.
+  - intros x y w c (HR & HK) Hs. destruct w as [t|]; cbn [step] in Hs.
+    + split; [eapply invR_thr_any; eauto | eapply invK_thr; eauto].
+    + split; [eapply invR_enf; eauto | eapply invK_enf; eauto].
+Qed.
+
+Theorem mem_commits_once : forall cap max ops sched s t o r,
+  run (init_sys cap max [] enf0 ops) sched = Fin s ->
+  nth_error ops t = Some o -> o <> OVisit -> nth_error (s_thr s) t = Some (PDone r) ->
+  count_tag t (s_log s) = 1%nat /\ In (T t, o, r) (s_log s).
+Proof.
+  intros cap max ops sched s t o r Hr Ho Hv Hn.
+  pose proof (run_from_reach (init_sys cap max [] enf0 ops) sched 0 _ (reach_refl _)) as R.
+  unfold run in Hr. rewrite Hr in R. destruct (reach_RK _ _ _ _ R) as [HR HK].
+  split; [exact (HK _ _ _ Ho Hv Hn)|].
+  specialize (HR _ _ Hn). unfold rfact in HR. destruct HR as (o' & Ho' & [->|Hi]); rewrite Ho in Ho'; inversion Ho'; subst; [contradiction | exact Hi].
+Qed.
